@@ -142,7 +142,8 @@ structure Sim (π : Type) where
   microTick : Nat := 0
   phase : Phase := .after
   regs : List RegState := []
-  pins : List Val := []
+  pins : List Val := []              -- internal state of the input pins (what `simProcSetInputPin` wrote)
+  pinsSeen : List Val := []          -- output of the pin nodes = `pins` as of the last `reevaluate` (`Node_Pin::simulateEvaluate`)
   clockHigh : List Bool := []
   resetHigh : List Bool := []
   queue : List Event := []
@@ -227,7 +228,7 @@ def processEvent (P : Prog) (S : ProcSem π) (s : Sim π) (e : Event) : Sim π :
 def reevaluate (P : Prog) (s : Sim π) : Sim π :=
   let outs := s.outs
   { s with regs := s.regs.mapIdx (fun i r => Reg.evaluate (P.reg i) (P.net.dataIn outs s.pins i) (P.net.enIn outs s.pins i) r),
-           needsReeval := false }
+           pinsSeen := s.pins, needsReeval := false }
 
 /-- `commitState()` (757-782) -/
 def commitState (P : Prog) (S : ProcSem π) (s : Sim π) : Sim π :=
@@ -332,6 +333,7 @@ def initState0 (P : Prog) (npins : List Val) (ext : π) : Sim π :=
   { time := 0, microTick := 0, phase := .after,
     regs := P.net.regs.map Reg.powerOn,
     pins := npins,
+    pinsSeen := npins,
     clockHigh := P.pins.map (·.srcRising),
     resetHigh := P.rstPins.map (fun _ => false),
     queue := initClockEvents P,
